@@ -51,6 +51,7 @@ var frameChecks = []*FrameCheck{
 	{Name: "queries-are-read-only", Props: []string{"C20", "C17"}, Packages: keeperPkgs, Run: frameReadOnlyQueries},
 	{Name: "locked-efund-writers", Props: []string{"C05", "C04"}, Packages: consensusPkgs, Run: frameLockedWriters},
 	{Name: "fee-decorators-are-read-only", Props: []string{"C14", "C06"}, Packages: consensusPkgs, Run: frameFeeDecoratorsReadOnly},
+	{Name: "ante-chain-order", Props: []string{"C05", "C06"}, Packages: []string{modPfx + "ante"}, Run: frameAnteOrder},
 	{Name: "store-reached-only-through-key-builders", Props: []string{"C18"}, Packages: keeperPkgs, Run: frameStoreKeys},
 }
 
@@ -813,4 +814,75 @@ func frameFeeDecoratorsReadOnly(p *Program, cs *ContractSet) []*FrameResult {
 		bad = append(bad, "no fee decorator function found")
 	}
 	return []*FrameResult{res("fee-decorators-never-write", fmt.Sprintf("none of the %d functions of the wrkchain/beacon ante and exported packages can reach KVStore.Set/Delete or a bank mutator, through static calls or keeper interfaces", n), bad)}
+}
+
+// The composition argument of C05/C06 needs the decorators in this order: message validation, then the two fee checks,
+// then the fee unlock, then the SDK's fee deduction (which fails when the payer cannot cover the fee), then signature
+// verification.  Read off the slice literal in ante.NewAnteHandler.
+func frameAnteOrder(p *Program, cs *ContractSet) []*FrameResult {
+	sp := p.byPath[modPfx+"ante"]
+	if sp == nil {
+		return []*FrameResult{res("ante-chain-order", "ante package loaded", []string{"ante package not loaded"})}
+	}
+	fn := sp.Func("NewAnteHandler")
+	if fn == nil {
+		return []*FrameResult{res("ante-chain-order", "ante.NewAnteHandler exists", []string{"ante.NewAnteHandler not found"})}
+	}
+	pos := map[string]int{}
+	dup := []string{}
+	for _, b := range fn.Blocks {
+		for _, in := range b.Instrs {
+			st, ok := in.(*ssa.Store)
+			if !ok {
+				continue
+			}
+			ia, ok := st.Addr.(*ssa.IndexAddr)
+			if !ok {
+				continue
+			}
+			c, ok := ia.Index.(*ssa.Const)
+			if !ok || c.Value == nil {
+				continue
+			}
+			idx, _ := constant.Int64Val(c.Value)
+			v := st.Val
+			if mi, ok := v.(*ssa.MakeInterface); ok {
+				v = mi.X
+			}
+			call, ok := v.(*ssa.Call)
+			if !ok {
+				continue
+			}
+			sc := call.Common().StaticCallee()
+			if sc == nil {
+				continue
+			}
+			name := sc.Name()
+			if _, seen := pos[name]; seen {
+				dup = append(dup, name+" appears twice in the decorator list")
+			}
+			pos[name] = int(idx)
+		}
+	}
+	var bad []string
+	bad = append(bad, dup...)
+	need := []string{"NewValidateBasicDecorator", "NewCorrectWrkChainFeeDecorator", "NewCorrectBeaconFeeDecorator", "NewCheckLockedUndDecorator", "NewDeductFeeDecorator", "NewSigVerificationDecorator"}
+	for _, n := range need {
+		if _, ok := pos[n]; !ok {
+			bad = append(bad, n+" is not in the decorator list of ante.NewAnteHandler")
+		}
+	}
+	before := func(a, b string) {
+		pa, oka := pos[a]
+		pb, okb := pos[b]
+		if oka && okb && !(pa < pb) {
+			bad = append(bad, fmt.Sprintf("%s (position %d) must come before %s (position %d)", a, pa, b, pb))
+		}
+	}
+	before("NewValidateBasicDecorator", "NewCorrectWrkChainFeeDecorator")
+	before("NewValidateBasicDecorator", "NewCorrectBeaconFeeDecorator")
+	before("NewCorrectWrkChainFeeDecorator", "NewCheckLockedUndDecorator")
+	before("NewCorrectBeaconFeeDecorator", "NewCheckLockedUndDecorator")
+	before("NewCheckLockedUndDecorator", "NewDeductFeeDecorator")
+	return []*FrameResult{res("ante-chain-order", "in ante.NewAnteHandler message validation precedes the WRKChain and BEACON fee decorators, both precede the locked-eFUND unlock, and the unlock precedes the SDK fee deduction; signature verification is in the chain", bad)}
 }
